@@ -182,6 +182,8 @@ def run(ctx):
         "the last tick before its Close (model and code agree; not alarmed on)",
     ]
     ctx.lean(props=["Props.C16"], drivers=["drv_c16"])
+    from vlib import lockfacts
+    lockfacts.run(ctx, "rate", "Props.C16Lock", "C16Lock")   # lock discipline decided about tables regenerated from the Go source
     ctx.harness("./cmd/c16", overlay=OVERLAY)
     if "overlay_fallback" in ctx.extra:
         # the white-box hooks name private identifiers of rate/limiter.go; when they no longer compile the harness is
